@@ -254,8 +254,19 @@ def check(ctx):
             # two files of one package import DIFFERENT packages that are both named util
             "g/twoutils": {"f1.go": "package twoutils\n\nimport \"example.org/go-journal.v2/util\"\n\nfunc A() uint64 {\n\treturn util.F()\n}\n",
                            "f2.go": "package twoutils\n\nimport \"example.org/other/util\"\n\nfunc B() uint64 {\n\treturn util.F()\n}\n"},
+            # ONE FFI reached through both of its providers (machine/disk and primitive/disk), in two files and through a helper package
+            "h/twoprov": {"f1.go": "package twoprov\n\nimport \"github.com/goose-lang/goose/machine/disk\"\n\nfunc A() uint64 {\n\treturn disk.Size()\n}\n",
+                          "f2.go": "package twoprov\n\nimport \"github.com/goose-lang/primitive/disk\"\n\nfunc B() uint64 {\n\treturn disk.Size()\n}\n"},
+            "h/viaprov": {"f.go": "package viaprov\n\nimport (\n\t\"example.com/m/a/same\"\n\t\"github.com/goose-lang/primitive/disk\"\n)\n\nfunc C() uint64 {\n\treturn same.UseDisk() + disk.Size()\n}\n"},
+            # user packages NAMED like an FFI (or like the word for "no FFI"): ordinary imports with a Require line of their own
+            "i/mylib/disk": {"f.go": "package disk\n\nfunc Sectors(n uint64) uint64 {\n\treturn n\n}\n"},
+            "i/none": {"f.go": "package none\n\nfunc Zero() uint64 {\n\treturn 0\n}\n"},
+            "j/libdisk": {"f1.go": "package libdisk\n\nimport \"github.com/goose-lang/goose/machine/disk\"\n\nfunc A() uint64 {\n\treturn disk.Size()\n}\n",
+                          "f2.go": "package libdisk\n\nimport \"example.com/m/i/mylib/disk\"\n\nfunc B() uint64 {\n\treturn disk.Sectors(3)\n}\n"},
+            "j/libnone": {"f.go": "package libnone\n\nimport \"example.com/m/i/none\"\n\nfunc Z() uint64 {\n\treturn none.Zero()\n}\n"},
         }
-        expect_ffi = {"a/same": "disk", "b/same": "none", "c/viaa": "disk", "d/empty": "none", "e/dup": "none", "f/trust": "none", "trusted_x": "none", "g/twoutils": "none"}
+        expect_ffi = {"a/same": "disk", "b/same": "none", "c/viaa": "disk", "d/empty": "none", "e/dup": "none", "f/trust": "none", "trusted_x": "none", "g/twoutils": "none",
+                      "h/twoprov": "disk", "h/viaprov": "disk", "i/mylib/disk": "none", "i/none": "none", "j/libdisk": "disk", "j/libnone": "none"}
         root = os.path.join(scratch, "co")
         alone = {}
         for d in co:
@@ -294,6 +305,13 @@ def check(ctx):
             found = True
             ctx.violation("counterexample", "Require lines: two files of one package import different packages with the same name",
                           {"proto": "cli-co", "packages": {"g/twoutils": co["g/twoutils"]}}, expected=want_ureq, observed=ureq)
+        for d, want_lines in (("j/libdisk", ["From Goose Require example_com.m.i.mylib.disk."]), ("j/libnone", ["From Goose Require example_com.m.i.none."]),
+                              ("h/twoprov", []), ("h/viaprov", ["From Goose Require example_com.m.a.same."])):
+            got_lines = [l for l in (alone[d] or b"").decode().split("\n") if "Require" in l and "prelude" not in l]
+            if got_lines != want_lines and not found:
+                found = True
+                ctx.violation("counterexample", "Require lines: a user package named like an FFI is an ordinary import; the providers of an FFI are not",
+                              {"proto": "cli-co", "packages": {k: v for k, v in co.items() if k == d or k.startswith("i/") or k == "a/same"}, "package": d}, expected=want_lines, observed=got_lines)
         treq = [l for l in (alone["f/trust"] or b"").decode().split("\n") if "Require" in l and "prelude" not in l]
         want_req = ["From Goose Require example_com.m.b.same.", "From Perennial.goose_lang.trusted Require Import example_com.m.trusted_x."]
         if treq != want_req and not found:
